@@ -123,6 +123,7 @@ theorem mk?_augKnots {b : Basis K} (hv : b.Valid) {tol : K} (htol : 0 < tol) :
   have hmax : max (-1 : Int) (-1) = -1 := max_self _
   rw [if_neg (by omega), if_neg (by rw [hsz]; omega), hmax]
   rw [if_neg (by rintro ⟨h, -⟩; exact absurd h (by decide))]
+  rw [if_neg (by rintro ⟨h, -⟩; exact absurd h (by decide))]
   rw [if_neg]
   · rfl
   · rw [Bool.not_eq_true, List.any_eq_false]
